@@ -165,6 +165,46 @@ def literal_catalogue(tier):
             segs += rest
             return g.tokens(segs, lead=lead)
         return build
+    # an invariant group nested in an invariant group (text of several fragments joined inside a fold): `{a/{b/c}}/*`,
+    # `<a/{b/c}:2,2>`, `{a<b/:2,2>}c/*`
+    def nested(outer, inner, pre, post, tail):
+        def build():
+            g = Gen()
+            ikind, ibody, ibounds = inner
+            itoks, itext = g.tokens([list(x) for x in ibody[0]], False, ibody[1])
+            if ikind == "alt":
+                itok = (T.branch("alt", [T.branch("cat", itoks, g.fresh())], g.fresh()), "{%s}" % itext)
+            else:
+                itok = (T.branch("rep", [T.branch("cat", itoks, g.fresh())], g.fresh(), lower=ibounds[0], upper=ibounds[1]), "<%s:%d,%d>" % (itext, ibounds[0], ibounds[1]))
+            segs = []
+            if pre == "sep":
+                segs = [["a"], [itok]]
+            elif pre == "glue":
+                segs = [["a", itok]]
+            else:
+                segs = [[itok]]
+            if post:
+                segs[-1] = segs[-1] + ["a"]
+            btoks, btext = g.tokens(segs)
+            if outer[0] == "alt":
+                otok = (T.branch("alt", [T.branch("cat", btoks, g.fresh())], g.fresh()), "{%s}" % btext)
+            else:
+                otok = (T.branch("rep", [T.branch("cat", btoks, g.fresh())], g.fresh(), lower=outer[1][0], upper=outer[1][1]), "<%s:%d,%d>" % (btext, outer[1][0], outer[1][1]))
+            top = [[otok]]
+            if tail == "sep-star":
+                top.append(["*"])
+            elif tail == "glue-lit-star":
+                top[-1] = top[-1] + ["a"]
+                top.append(["*"])
+            return g.tokens(top)
+        return build
+    inners = [("alt", ([["a"], ["a"]], False), None), ("alt", ([["a"]], True), None), ("rep", ([["a"]], True), (2, 2)), ("rep", ([["a"], ["a"]], False), (2, 2))]
+    for outer in (("alt", None), ("rep", (2, 2)), ("rep", (1, 1))):
+        for inner in inners:
+            for pre in ("sep", "glue", None):
+                for post in (False, True):
+                    for tail in (None, "sep-star", "glue-lit-star"):
+                        out.append(nested(outer, inner, pre, post, tail))
     ctx = [(), (["a"],)] + ([(["a"], ["a"])] if tier == "thorough" else [])
     for bv in branch_variants():
         for before, after in itertools.product(ctx, repeat=2):
@@ -233,6 +273,7 @@ def nested_catalogue(tier):
         bodies += [([["a"], "TREE"], False, False), (["TREE"], True, False), ([["a"]], True, False)]
     inner_shapes = [("rep", [b], bounds) for b in bodies for bounds in ((2, 2), (1, 2), (1, None))]
     inner_shapes += [("alt", [b1, b2], None) for b1, b2 in itertools.product(bodies, repeat=2)]
+    inner_shapes += [("alt", [([["a"]], False, False)], None), ("rep", [([["a"]], False, False)], (1, 1))]
     outer_bounds = ((1, None), (0, None), (2, 2)) + (((1, 2),) if thorough else ())
     out = []
 
@@ -250,8 +291,13 @@ def nested_catalogue(tier):
             else:
                 lo, hi = bounds
                 itok = (T.branch("rep", [T.branch("cat", bodies_[0], g.fresh())], g.fresh(), lower=lo, upper=hi), "<%s:%s,%s>" % (texts[0], lo, "" if hi is None else hi))
-            seg = ([inner_pre] if inner_pre else []) + [itok] + ([inner_post] if inner_post else [])
-            body_toks, body_text = g.tokens([seg])
+            seg = ([inner_pre] if inner_pre else []) + [itok] + ([inner_post] if inner_post and inner_post != "/" and inner_post != "*/*/" else [])
+            if inner_post == "/":
+                body_toks, body_text = g.tokens([seg], False, True)          # `<{a}/:1,>`
+            elif inner_post == "*/*/":
+                body_toks, body_text = g.tokens([seg + ["*"], ["*"]], False, True)   # `<<*/:1,2>*/*/:1,>`
+            else:
+                body_toks, body_text = g.tokens([seg])
             if outer is None:
                 otok = (T.branch("alt", [T.branch("cat", body_toks, g.fresh()), T.branch("cat", [lit("z")], g.fresh())], g.fresh()), "{%s,z}" % body_text)
             else:
@@ -264,7 +310,7 @@ def nested_catalogue(tier):
     outers = list(outer_bounds) + ([None] if thorough else [])
     for inner in inner_shapes:
         for outer in outers:
-            for inner_pre, inner_post in ((None, None), ("a", None), (None, "*")) if thorough else ((None, None), ("a", None)):
+            for inner_pre, inner_post in ((None, None), ("a", None), (None, "*"), (None, "/"), (None, "*/*/")) if thorough else ((None, None), ("a", None), (None, "/"), (None, "*/*/")):
                 for before in ((), ("a",)):
                     for tail in (None, "*"):
                         out.append(make(inner, inner_pre, inner_post, outer, before, tail))
@@ -296,6 +342,14 @@ def catalogue(tier, flavour="general"):
         for s1, s2 in itertools.product(subs2, subs1):
             if s1 not in subs1:
                 branch_shapes.append(("alt", [s1, s2], None))
+    else:
+        # an exhaustive two-segment branch next to a bounded one, in both orders: `{a/**,b}`, `{b,**/a}`
+        for s1 in subs2:
+            if s1[0] in ([["a"], "TREE"], ["TREE", ["a"]]) and not s1[1] and not s1[2]:
+                for s2 in subs1:
+                    if s2[0] in ([["a"]], [["*"]]):
+                        branch_shapes.append(("alt", [s1, s2], None))
+                        branch_shapes.append(("alt", [s2, s1], None))
     leaf_tops = [["a"], ["*"], "TREE"]
     contexts = [()]
     for n in ((1, 2) if thorough else (1,)):
@@ -992,6 +1046,8 @@ def group_of(query, r):
     if query == "exhaustive":
         if ":0," in t:
             return "optional-repetition/" + ("matches-the-empty-path" if r["witness"][0] == "" else "matched-path-not-empty")
+        if re.search(r"<(\{[a-w,]+\}|<[a-w]+:\d+,\d+>)/:[1-9]\d*,>", t):
+            return "bounded-branch-in-open-repetition"        # `<{a}/:1,>*`, `<<a:1,1>/:1,>*`
         return None
     if query == "depth":
         v, actual = r.get("verdict"), r.get("actual")
